@@ -114,6 +114,32 @@ def check(ctx):
         sl_ = origins(fr_, st_["rv"]["ops"][st_["rv"]["fields"].index("body")])
         ctx.require(R2, any("Response::text" in (x.name or "") or "text::{closure" in (x.name or "") for x in sl_.calls), where(fr_, i_),
                     "ValidHttpResponse.body = response.text() (the complete body or an error)", ["from_response", "body-text"])
+    # has_public_key_of IS the comparison of the certificate's public key with the key pair's: evaluated with the comparison answered
+    # true / false (kind and size of the two keys being equal), it returns exactly that answer
+    hb_ = prog.body(HPK)
+    if hb_ is not None:
+        from ..absint import Val as _V, marker as _mk, ok as _ok, run as _run, struct_val as _sv, vbool as _vb, vint as _vi
+        for eq_ in (True, False):
+            def m_(cs, args, eq_=eq_):
+                n = cs.name or ""
+                if n.endswith("::public_eq"):
+                    return _vb(eq_)
+                if n.endswith("::public_key"):
+                    return _ok(_mk("CERTKEY"))
+                if n.endswith("::id"):
+                    return _vi(408)
+                if n.endswith(("::bits", "::size", "::security_bits")):
+                    return _vi(256)
+                return None
+            try:
+                r_ = _run(hb_, {1: _V("ref", _mk("CERT")), 2: _V("ref", _sv(prog, "acme_common::crypto::openssl_keys::KeyPair", {"inner_key": _mk("KEY")}))}, m_, max_steps=20000)
+            except Exception:
+                r_ = None
+            rv_ = r_.ret.deref() if r_ is not None and r_.kind == "return" and r_.ret is not None else None
+            if rv_ is None or rv_.k != "adt" or not rv_.extra or rv_.extra[1] != "Ok" or not rv_.v or rv_.v[0].deref().k != "bool":
+                continue
+            ctx.require(R2, rv_.v[0].deref().v == eq_, "%s:%s" % (hb_.file, hb_.line), "has_public_key_of answers %s when the public keys compare %s (same key type and size)" % (rv_.v[0].deref().v, "equal" if eq_ else "different"),
+                        [HPK, "evaluated", str(eq_)])
     fp = b.calls_to(FROMPEM)
     ctx.floor(R2, "X509Certificate::from_pem on the downloaded body", len(fp), 1)
     fp_ok = [e for c in fp for e in ok_edges_of(b, c)]
@@ -184,6 +210,12 @@ def check(ctx):
     from .storage_common import file_identity_rules
     file_identity_rules(ctx, R6)
 
+    no_discarded_results(ctx)
+
+
+def no_discarded_results(ctx):
+    """shared with C07 / C08: an error that is dropped is a failure taken for success"""
+    prog = ctx.prog
     R4 = ctx.rule("R4", "no Result<_, Error|HttpError> is discarded on the renewal path (exception: best-effort nonce prefetch in http::post)")
     reach = prog.reach([RC + "::{closure#0}"])
     n = 0
